@@ -18,6 +18,14 @@ for f in p.all_functions:
         names.append('**' + a.kwarg.arg)
     out[f.qualname.split('@')[0]] = names
     out['#pos:' + f.qualname.split('@')[0]] = [x.arg for x in a.posonlyargs + a.args]
+    import ast as _ast
+    defs = {}
+    for nm in names:
+        d = f.param_default(nm) if not nm.startswith('*') else None
+        if d is not None:
+            defs[nm] = _ast.unparse(d)
+    if defs:
+        out['#def:' + f.qualname.split('@')[0]] = defs
 dst = os.path.join(os.path.dirname(os.path.dirname(os.path.abspath(__file__))), 'sa', 'signatures.json')
 json.dump(out, open(dst, 'w'), indent=0, sort_keys=True)
 print(len(out), 'signatures ->', dst)
